@@ -371,7 +371,8 @@ static const char *value_ops[] = {
     "ndarith add 2 2", "ndarith add 2 3", "ndarith sub 2 2", "ndarith sub 3 2", "ndarith mul 2 2", "ndarith mul 1 2", "ndarith div 2 2", "ndarith div 2 1",
     "ndarith lt 2 2", "ndarith lt 2 3", "ndarith le 0 0", "ndarith gt 3 2", "ndarith ge 1 1", "ndarith eq 2 3", "ndarith ne 0 1",
     "ndarith dot 2 2", "ndarith dot 2 3", "ndarith dot 0 0",
-    "ndindex 2 0", "ndindex 2 1", "ndindex 2 2", "ndindex 2 100", "ndindex 0 0",
+    "ndindex 2 0", "ndindex 2 1", "ndindex 2 2", "ndindex 2 100", "ndindex 0 0", "ndindex 2 18446744073709551615", "ndindex 0 18446744073709551615",
+    "ndarray strread 3", "ndarray strwrite 3", "ndarray strctor 2",
     "ndscalar add 3", "ndscalar sub 3", "ndscalar dec 3", "ndscalar inc 3",
     "ndarray get 2x3 0", "ndarray get 2x3 5", "ndarray get 2x3 6", "ndarray get 2x3 1000", "ndarray set 2x3 5", "ndarray set 2x3 6", "ndarray set 2x3 1000",
     "ndarray getnd 2x3 1,2", "ndarray getnd 2x3 2,0", "ndarray getnd 2x3 1", "ndarray getnd 2x3 0,0,0", "ndarray setnd 2x3 1,2", "ndarray setnd 2x3 5,5",
@@ -425,6 +426,22 @@ static std::string value_op(const std::vector<std::string> &t) {
         const std::string &f = t.at(2);
         auto idx = [&](const std::string &x) { std::vector<ndsize_t> v; std::stringstream ss(x); std::string it; while (std::getline(ss, it, ',')) v.push_back(dec_u64(it)); return NDSize(v); };
         if (f == "zero") { NDArray z(DataType::Double, NDSize()); return "elems=" + std::to_string(z.rank()); }
+        if (f == "strctor") { NDArray sa(DataType::String, NDSize({num(3)})); return "elems=" + std::to_string(sa.num_elements()); }
+        if (f == "strread" || f == "strwrite") {
+            // a String DataArray read into / written from an NDArray of element type String
+            File sf = File::open(wd + "/value.nix", FileMode::Overwrite);
+            Block sb = sf.createBlock("b", "t");
+            DataArray sd = sb.createDataArray("s", "t", DataType::String, NDSize({num(3)}));
+            std::vector<std::string> sv(num(3), "a string that is longer than the small string buffer of std::string");
+            sd.setData(sv);
+            std::string out;
+            try {
+                NDArray sa(DataType::String, NDSize({num(3)}));
+                if (f == "strread") { sd.getData(sa); out = "read"; } else { sd.setData(sa); out = "written"; }
+            } catch (...) { sf.close(); throw; }
+            sf.close();
+            return out;
+        }
         NDArray arr(DataType::Double, NDSize({2, 3}));
         for (size_t i = 0; i < 6; i++) arr.set<double>(i, 10.0 + static_cast<double>(i));
         if (f == "get") return enc_dbl(arr.get<double>(num(4)));
